@@ -186,8 +186,9 @@ def post_check(pid, tier, reports, seed):
     here = os.path.dirname(os.path.dirname(os.path.dirname(os.path.abspath(__file__))))
     out = os.path.join(here, '.scratch', 'c02-O-%s.json' % tier)
     os.makedirs(os.path.dirname(out), exist_ok=True)
-    fams = [r['family'] for r in reports if r.get('digests') and
-            (tier != 'quick' or r['family'] in QUICK_O_FAMILIES)]
+    # only families that were explored exhaustively can be compared path by path
+    fams = [r['family'] for r in reports if r.get('digests') and r.get('exhaustive') and
+            (r['family'] in (QUICK_O_FAMILIES if tier == 'quick' else THOROUGH_O_FAMILIES))]
     if not fams:
         return {'families': 0}, []
     env = dict(os.environ)
@@ -195,6 +196,9 @@ def post_check(pid, tier, reports, seed):
     r = subprocess.run(cmd, cwd=here, env=env, capture_output=True, text=True)
     problems = []
     info = {'families': len(fams), 'paths_compared': 0, 'cmd': ' '.join(cmd[1:])}
+    if r.returncode == 3:
+        info['note'] = 'the -O exploration was not exhaustive within its budget: not compared'
+        return info, problems
     if r.returncode != 0 or not os.path.exists(out):
         problems.append(('error', '-O exploration failed: %s' % (r.stdout + r.stderr)[-600:]))
         return info, problems
@@ -231,6 +235,7 @@ TINY = ['sleep', 'after', 'await flag', 'await tracked>=x', 'lock', 'await queue
         'first', 'until']
 WANT_DIGEST = True
 QUICK_O_FAMILIES = ['pair_cancel']     # quick tier: -O differential on this family only
+THOROUGH_O_FAMILIES = ['pair', 'trio', 'six_sleepers']
 FAMILIES = [
     Family('pair', fam_prog,
            quick=dict(names=TINY, k=2, nops=1, cancels=False, _validate_every=3),
@@ -254,15 +259,14 @@ FAMILIES = [
                       _validate_every=3),
            nonrepro='inconclusive', bounds='2 activities x 1 op, activity 0 cancelled at (c,p)'),
     Family('pair2', fam_prog,
-           thorough=dict(names=['sleep', 'await flag', 'flag.set', 'lock', 'await queue',
-                                'queue.put', 'borrow', 'tracked.set', 'await tracked>=x'],
-                         k=2, nops=2, cancels=False, _validate_every=11),
+           thorough=dict(names=['sleep', 'await flag', 'lock', 'await queue', 'borrow'],
+                         k=2, nops=2, cancels=False, _validate_every=11, _max_wall=900),
            nonrepro='inconclusive', bounds='2 activities x 2 ops'),
     Family('trio', fam_prog,
            quick=dict(names=['sleep', 'lock', 'await tracked>=x'],
                       k=3, nops=1, cancels=False, _validate_every=3),
-           thorough=dict(names=['sleep', 'lock', 'await flag', 'flag.set', 'borrow', 'await queue',
-                                'tracked.set', 'await tracked>=x', 'queue.put', 'claim'],
-                         k=3, nops=1, cancels=True, _validate_every=11),
+           thorough=dict(names=['sleep', 'lock', 'await flag', 'borrow', 'await queue',
+                                'await tracked>=x'],
+                         k=3, nops=1, cancels=False, _validate_every=11, _max_wall=900),
            nonrepro='inconclusive', bounds='3 activities x 1 op'),
 ]
